@@ -31,9 +31,12 @@ def check(ctx: Ctx) -> None:
         for m in repo.cls("ProxyIO").methods.values():
             for c in repo.calls_in(m):
                 if callee_attr(c) == "_controll" and c.args:
-                    name = unparse(c.args[0])
+                    name = unparse(c.args[0]).split(".")[-1]
                     sent[name] = (m, c)
-        vals = {k: gio.consts.get(k) for k in sent}
+        # the codes are module-level constants or class attributes of ProxyIO
+        allconsts = dict(gio.consts)
+        allconsts.update({k: v for k, v in repo.cls("ProxyIO").consts.items() if k.startswith("RIO_")})
+        vals = {k: (repo.fold_in(c.args[0], m) if repo.fold_in(c.args[0], m) is not UNKNOWN else None) for k, (m, c) in sent.items()}
         ob.site(gio, None, "codes sent by ProxyIO", codes=vals)
         if len(set(vals.values())) != len(vals) or any(v is None for v in vals.values()):
             ob.violation(gio, None, f"control codes are not distinct constants: {vals}", construct=f"codes {vals}")
@@ -45,7 +48,7 @@ def check(ctx: Ctx) -> None:
                 ob.violation(m, c, f"ProxyIO.{m.name} sends {code}: the wrong operation is requested from the forwarder")
         p = [x for x in fc.params()][0]
         DATA = ("sym", p)
-        byval = {v: k for k, v in gio.consts.items() if k.startswith("RIO_")}
+        byval = {v: k for k, v in allconsts.items() if k.startswith("RIO_")}
         evc = evaluator(repo, fc)
         arms: dict[str, list] = {}
 
